@@ -1031,6 +1031,14 @@ def extract_tokens(repo):
     cp = (len(re.findall(r'#\[derive\(Clone, Copy, Eq, PartialEq\)\]\s*pub struct (EntityAny|EntityDirectAny)', ent)) == 2
           and 'impl<A: Archetype> Copy for Entity<A> {}' in ent and 'impl<A: Archetype> Copy for EntityDirect<A> {}' in ent)
     out.append('Definition handles_are_copy : bool := %s.' % ('true' if cp else 'false'))
+    # reference-to-reference handle conversions are transmutes: the output reference must carry the input's lifetime
+    tr = re.findall(r"impl<'a, A: Archetype> From<&'a (mut )?(Entity|EntityDirect)<A>> for &'a (mut )?(EntityAny|EntityDirectAny) \{\s*"
+                    r"(?:#\[inline\(always\)\]\s*)?fn from\(value: &'a (mut )?(Entity|EntityDirect)<A>\) -> Self \{", ent)
+    tr_ok = (len(tr) == 4 and all(m[0] == m[2] == m[4] and m[1] == m[5] and m[3] == m[1] + 'Any' for m in tr)
+             and len(re.findall(r'transmute', ent)) == 4 and len(re.findall(r'From<&', ent)) == 4)
+    if len(re.findall(r'transmute', sto + ver + slot + idx + itr)) != 0:
+        raise ExtractError('unexpected transmute in the runtime crate')
+    out.append('Definition ref_conversions_tie_lifetimes : bool := %s.' % ('true' if tr_ok else 'false'))
     # iterators hold raw pointers plus PhantomData<&'a mut A>: they borrow the archetype mutably for 'a
     ph = len(re.findall(r"phantom: std::marker::PhantomData<&'a mut A>", itr)) == 2
     out.append('Definition iterators_borrow_archetype_mutably : bool := %s.' % ('true' if ph else 'false'))
